@@ -254,8 +254,19 @@ macro_rules! leaf {
 leaf!(B, bool);
 leaf!(U, ());
 leaf!(S, String);
+// numbers: f64 accepts every JSON number (the other widths add an out-of-bounds error that
+// depends on json-number's parsers, a dependency); a non-number is a kind mismatch
+leaf!(N, f64);
+impl From<Mapped<json_syntax::TryIntoNumberError<json_syntax::NumberType<f64>>>> for E {
+    fn from(m: Mapped<json_syntax::TryIntoNumberError<json_syntax::NumberType<f64>>>) -> E {
+        match m.value {
+            json_syntax::TryIntoNumberError::Unexpected(u) => E::from(Mapped::new(m.offset, u)),
+            json_syntax::TryIntoNumberError::OutOfBounds(_) => E(m.offset, 8, 8),
+        }
+    }
+}
 
-pub const TYPES: [&str; 9] = ["VB", "VVB", "VOB", "MB", "MVS", "VMU", "OVB", "MMOS", "VS"];
+pub const TYPES: [&str; 13] = ["VB", "VVB", "VOB", "MB", "MVS", "VMU", "OVB", "MMOS", "VS", "VN", "MVN", "ON", "VMON"];
 
 fn conv<T: TryFromJson<Error = E>>(v: &Value, cm: &CodeMap) -> String {
     match T::try_from_json(v, cm) {
@@ -277,6 +288,10 @@ pub fn eval_conv(ty: &str, src: &str) -> String {
             "OVB" => conv::<Option<Vec<B>>>(&v, &cm),
             "MMOS" => conv::<BTreeMap<String, BTreeMap<String, Option<S>>>>(&v, &cm),
             "VS" => conv::<Vec<Box<S>>>(&v, &cm),
+            "VN" => conv::<Vec<N>>(&v, &cm),
+            "MVN" => conv::<BTreeMap<String, Vec<N>>>(&v, &cm),
+            "ON" => conv::<Option<N>>(&v, &cm),
+            "VMON" => conv::<Vec<BTreeMap<String, Option<N>>>>(&v, &cm),
             _ => "BADTYPE".into(),
         },
     }
@@ -339,6 +354,7 @@ fn doc_of(ty: &str, r: &mut Rng, leaf: &mut usize, plant: usize, bad: &str, s: &
                 match head {
                     "B" => s.push_str(*r.pick(&["true", "false"])),
                     "U" => s.push_str("null"),
+                    "N" => s.push_str(*r.pick(&["0", "-1.5e3", "1e400", "18446744073709551616", "0.1"])),
                     _ => s.push_str(*r.pick(&["\"\"", "\"x\"", "\"\\u00e9\""])),
                 }
             }
